@@ -29,8 +29,21 @@ struct op { char kind[8]; int n, reg, lck, rcu, gp; };
 struct prog { char name[16]; int nops; struct op ops[MAXOPS]; int npop; int got[MAXOPS]; };
 static struct prog P[8]; static int np;
 static int legacy;
-static struct cds_lfs_stack stk; static struct cds_lfs_node nodes[MAXN];
-static struct cds_lfs_stack_rcu rstk; static struct cds_lfs_node_rcu rnodes[MAXN];
+/* The node arrays live at an adversarial address: node n1 starts exactly at a 4 GiB boundary (low 32 address bits zero), so a result
+ * derived from a truncated node pointer ("stack was non-empty" computed through an int) differs from the pointer test; fallback: heap. */
+#include <sys/mman.h>
+#ifndef MAP_FIXED_NOREPLACE
+#define MAP_FIXED_NOREPLACE 0x100000
+#endif
+static struct cds_lfs_stack stk; static struct cds_lfs_node *nodes;
+static struct cds_lfs_stack_rcu rstk; static struct cds_lfs_node_rcu *rnodes;
+static void *place_nodes(size_t esz, unsigned long b)
+{
+	void *r = mmap((void *) (b - 4096), 8192, PROT_READ | PROT_WRITE, MAP_PRIVATE | MAP_ANONYMOUS | MAP_FIXED_NOREPLACE, -1, 0);
+	if (r == (void *) (b - 4096) && esz * MAXN < 4096) return (void *) (b - esz);		/* element 1 at the boundary */
+	if (r != MAP_FAILED) munmap(r, 8192);
+	return calloc(MAXN, esz);
+}
 static int pushed[MAXN], held[MAXN];
 
 static int node_id(void *n, const char *what)
@@ -129,6 +142,7 @@ int main(int argc, char **argv)
 	}
 	fclose(f);
 	vrt_name_val(NULL, "NULL");
+	nodes = place_nodes(sizeof *nodes, 0x100000000UL); rnodes = place_nodes(sizeof *rnodes, 0x200000000UL);
 	if (legacy) {
 		cds_lfs_init_rcu(&rstk);
 		vrt_name(&rstk.head, VK_PTR, "s1.head");
